@@ -352,7 +352,7 @@ impl Property for C12 {
          construction path: raw bytes, DER SPKI written by the harness' RFC 8410/5480/3279 encoders (cross-checked against OpenSSL output at \
          start-up), PEM SPKI, derivation from PKCS#8 private keys, raw 64-byte Ed25519 keypairs, JSON with both key-id hash-algorithm-list \
          variants; (b) synthetic material: random 32-byte Ed25519 values, random 65-byte uncompressed points, random RSA moduli of 2048-4096 bits; \
-         (c) layout documents whose key table files keys under a wrong identifier, another key's identifier, or with a lying keyid member. \
+         (c) layout documents whose key table files keys under a wrong identifier, another key's identifier, their own identifier written wholly or partly in upper-case hexadecimal, or with a lying keyid member. \
          Oracle: key_id == hex(sha256(OLPC(description of that key's own type, scheme, list, material))); equal across paths with equal \
          description; survives JSON->parse->JSON; from_spki(x) = Ok and as_spki() == x; after parsing a layout every (id,key) in the table has \
          key.key_id()==id. (d) history: (a) preceded in the same process by 1-3 other import attempts whose outcome is not judged (PKCS#8 / SPKI / PEM / JSON of pool keys: with an RFC 5208 attributes member, truncated, one byte changed, trailing bytes, offered under another algorithm's scheme, or clean). (The end-to-end aliasing clause is exercised in the C02 worlds.) Non-trivial: every case; distinct by (kind, material, variant)."
@@ -379,7 +379,7 @@ impl Property for C12 {
                 (Just(1u8), proptest::collection::vec(any::<u8>(), 64).prop_map(|mut v| { v.insert(0, 4); v }), Just(false)),
                 (Just(2u8), prop_oneof![Just(256usize), Just(384), Just(512), 256usize..=512].prop_flat_map(|n| proptest::collection::vec(any::<u8>(), n)).prop_map(|mut v| { v[0] |= 0x80; let l = v.len(); v[l - 1] |= 1; v }), any::<bool>()),
             ].prop_map(|(kind, material, sha512)| Spec::Synthetic { kind, material, sha512 }),
-            3 => (distinct_keys(1, 3, true), proptest::collection::vec((0usize..3, 0u8..4), 1..4), any::<bool>())
+            3 => (distinct_keys(1, 3, true), proptest::collection::vec((0usize..3, 0u8..6), 1..4), any::<bool>())
                 .prop_map(|(keys, filing, lie_keyid)| Spec::Table { keys, filing, lie_keyid }),
             2 => (proptest::collection::vec(noise(), 1..4), pool_key()).prop_map(|(prelude, key)| Spec::After { prelude, key }),
             // cardinality tail: key tables with 17-70 keys, most of them filed under a wrong identifier
@@ -460,6 +460,13 @@ impl Property for C12 {
                         }
                         1 => ids[(i + 1) % keys.len()].clone(), // another key's id (or its own when only one key)
                         2 => "f".repeat(64),
+                        // its own identifier in upper-case hexadecimal: another string, so another identifier
+                        4 => own_id.to_uppercase(),
+                        // ... or with only the first letter digit in upper case
+                        5 => match own_id.find(|c: char| c.is_ascii_lowercase()) {
+                            Some(p) => format!("{}{}{}", &own_id[..p], own_id[p..p + 1].to_uppercase(), &own_id[p + 1..]),
+                            None => "e".repeat(64),
+                        },
                         _ => {
                             let mut s = own_id.clone();
                             s.replace_range(0..1, if own_id.starts_with('0') { "1" } else { "0" });
@@ -477,7 +484,8 @@ impl Property for C12 {
                     Err(_) => o.class("table-rejected"),
                     Ok(l) => {
                         for (id, k) in &l.keys {
-                            if id != k.key_id() {
+                            // (identifiers compared as the strings they are written as)
+                            if serde_json::to_value(id).ok() != serde_json::to_value(k.key_id()).ok() {
                                 o.fail("C12/table/aliased-entry-kept", format!("table maps {:?} to a key whose id is {:?}; document {}", id, k.key_id(), d), "entry dropped or document rejected");
                             }
                             let want = ids.iter().any(|x| *x == kid(k));
